@@ -231,8 +231,25 @@ def r2_remap_construction(ctx):
     c07.r5_remap_order_and_freshness(ctx, "R-C10-2")
 
 
+def r8_cached_modules_point_into_the_committed_program(ctx):
+    """a cached module value holds function / tuple / type indices of the Program it was compiled into: the ModuleCache and the Program the compiler
+    works on are BOTH scratch clones committed together (shared with R-C11-3) — a cache entry that survives a rejected line points into a discarded
+    program, and the next `%m.f` is a cache hit against stale indices"""
+    from rules import c11
+    before = len(ctx.obs)
+    c11.r3_clones(ctx)
+    for o in ctx.obs[before:]:
+        o["rule"] = "R-C10-8"
+    if "R-C11-3" in ctx.rules:
+        ctx.rules["R-C10-8"] = ctx.rules.pop("R-C11-3")
+    for f in ctx.floors:
+        if f["rule"] == "R-C11-3":
+            f["rule"] = "R-C10-8"
+
+
 def run(ctx):
-    ctx.run_rules([r1_remap_completeness, r2_remap_construction, r3_serde_symmetry, r4_capture_injection, r5_module_import, r6_heap_index_scope, r7_load_time_tables])
+    ctx.run_rules([r1_remap_completeness, r2_remap_construction, r3_serde_symmetry, r4_capture_injection, r5_module_import, r6_heap_index_scope, r7_load_time_tables,
+                   r8_cached_modules_point_into_the_committed_program])
     ctx.note("R-C10-1 also decides mark ⊇ sweep: every sweep lookup that unwrap()s is for an id class the mark phase records for the same variant")
     ctx.note("NOT decided: that `%m.f` behaves like in-place evaluation, or equality of results across the four execution routes (needs evaluation)")
     return (
